@@ -186,7 +186,14 @@ def split_load(path, fmt):
 
 def all_cases(tier):
     pal = core.seed() % len(PALETTES)
-    return table_cases(tier, pal) + image_cases(tier, pal) + session_cases(tier, pal)
+    cases = table_cases(tier, pal) + image_cases(tier, pal)
+    # the same numeric data stored BIG-endian (what everything read from FITS is): byte order must not matter
+    be = []
+    for c in cases:
+        if set(c['cols']) & set('fi') and c.get('components') is None and c.get('loader', 'auto') == 'auto' and \
+                (tier == 'thorough' or (c.get('nrow', 3) == 3 and not c.get('derived'))):
+            be.append(dict(c, be=True))
+    return cases + be + session_cases(tier, pal)
 
 
 # ------------------------------------------------------- building and oracle
@@ -207,6 +214,8 @@ def build(c):
         for j, k in enumerate(c['cols']):
             vals = np.array(pal[k])
             cols.append((names[k], k, np.roll(np.resize(vals, size), -j).reshape(shape)))
+    if c.get('be'):
+        cols = [(name, k, v.astype(v.dtype.newbyteorder('>')) if v.dtype.kind in 'fi' else v) for name, k, v in cols]
     for name, k, v in cols:
         d.add_component(v.copy(), name)
     if c.get('derived'):
